@@ -372,7 +372,7 @@ NOT_DECIDED = {
     "C08": "two closure statements of type_cast (Concatenation -> List) are cut out and assumed; SimpleGarnishData's own host plumbing (Basic's defer_op is proved to forward once, operands in order)",
     "C09": "f64::powf and f64 % f64 (libm, unmodelled by CBMC); float * and / exactness and in-range float // (tier deep, not registered); integer ** exactness only in the thorough tier",
     "C10": "that `build` places right operands / arms behind the jumps; evaluation counts over whole programs",
-    "C11": "slice operands (frame only); that the data implementations' iterators yield the sequences the trait contract names (proved for SimpleGarnishData's list-item and concatenation iterators asked for everything, unit V3: insertion order / flat item sequence; for BasicGarnishData's list-item, concatenation, char-list and byte-list iterators, unit V2: the requested window in order, the element conversion of the two text iterators and the draining of a list iterator being assumed stand-ins; Basic's symbol-list iterator beyond its window size and Simple's text iterators are assumed); termination of the work list; of the equivalence-relation laws of the unbounded relation symmetry and reflexivity are machine-checked lemmas over `weq` (`lemma_equality_is_symmetric`, given symmetric numeric equality - K1; `lemma_equality_is_reflexive`, for NaN-free values of the types the statement lists); transitivity is by reading of `deq`",
+    "C11": "slice operands (frame only); that the data implementations' iterators yield the sequences the trait contract names (proved for SimpleGarnishData's list-item and concatenation iterators asked for everything, unit V3: insertion order / flat item sequence; for BasicGarnishData's list-item, concatenation, char-list and byte-list iterators, unit V2: the requested window in order, the element conversion of the two text iterators and the draining of a list iterator being assumed stand-ins; Basic's symbol-list iterator beyond its window size and Simple's text iterators are assumed); termination of the work list; of the equivalence-relation laws of the unbounded relation symmetry, reflexivity and transitivity are machine-checked lemmas over the specification `weq` (given symmetric / transitive numeric equality - K1 proves both for SimpleNumber; reflexivity for NaN-free values of the types the statement lists), and hold for the code through `perform_equality_check.structural` on runs that return",
     "C12": "slices of char/byte lists; chars and bytes are ordered by the data object's own PartialOrd (assumed to be the natural order)",
     "C15": "SimpleGarnishData's interning adders (HashMap + SipHash; symbols, text, byte lists): not claimed; Basic's text/symbol adders and conversions other than add_byte_list_from",
     "C16": "std's sort inside Basic's end_list (the window borrow, count and sort_by are an assumed stand-in; the rest of end_list is proved, Simple's end_list entirely); symbol lookup in a Slice of a Concatenation (assumed stand-in)",
